@@ -39,6 +39,9 @@ def configs(tier):
     out.append({'name': 'ifg-wrappers', 'kind': 'wrappers'})
     for mk in ('none', 'corner'):
         out.append({'name': 'synth-rms-3-%s' % mk, 'kind': 'synth', 'samples': 3, 'mask': mk})
+    # history: a synthesis with the same sample count and spacing earlier in the process must not change what a later PSD reports
+    for smp in (3, 4):
+        out.append({'name': 'psd-after-synthesis-%d' % smp, 'kind': 'history', 'samples': smp})
     return out
 
 
@@ -50,6 +53,9 @@ def params(cfg):
         ps += [('h_%d_%d' % (i, j), {}) for i in range(m) for j in range(n)]
     if k == 'wrappers':
         ps += [('h_%d_%d' % (i, j), {}) for i in range(3) for j in range(3)]
+    if k == 'history':
+        s = cfg['samples']
+        ps += [('z_%d_%d' % (i, j), {}) for i in range(s) for j in range(s)] + [('h_%d_%d' % (i, j), {}) for i in range(s) for j in range(s)]
     if k == 'synth':
         s = cfg['samples']
         ps += [('z_%d_%d' % (i, j), {}) for i in range(s) for j in range(s)] + [('rmsreq', {'pos': True}), ('size', {'pos': True})]
@@ -146,6 +152,25 @@ def run(cfg, H):
         H.eq('Interferogram.psd data', ps.data, p)
         H.eq('Interferogram.psd x', ps.x, ux)
         H.eq('Interferogram.psd dx', ps.dx, 1 / (3 * dx))
+    elif k == 'history':
+        s = cfg['samples']
+        size = 6                       # concrete: dxg = size / (samples - 1) is 3 or 2
+        dxg = H.frac(size, s - 1)
+        Z = H.zeros((s, s), complex_=False)
+        h = H.zeros((s, s), complex_=False)
+        for i in range(s):
+            for j in range(s):
+                Z[i, j] = H.param('z_%d_%d' % (i, j))
+                h[i, j] = H.param('h_%d_%d' % (i, j))
+        orig = I.synthesize_surface_from_psd
+        I.synthesize_surface_from_psd = lambda psd, nux, nuy: (nux, nuy, Z.copy())
+        try:
+            I.render_synthetic_surface(size, s, rms=None, mask=None, psd_fcn=lambda nu: 1 + nu * nu)
+        finally:
+            I.synthesize_surface_from_psd = orig
+        ux, uy, p = I.psd(h, dxg, 'welch' if s > 2 else None)
+        H.eq('x frequency axis after an earlier synthesis', ux[0, :], H.asarray([(j - s // 2) / (s * dxg) for j in range(s)]))
+        H.eq('y frequency axis after an earlier synthesis', uy[:, 0], H.asarray([(i - s // 2) / (s * dxg) for i in range(s)]))
     elif k == 'synth':
         s = cfg['samples']
         mask = None
